@@ -234,6 +234,16 @@ func (c *FnCtx) callFunc(x *ast.CallExpr, fobj *types.Func, recvExpr ast.Expr, s
 		}
 		return c.callByContract(con, fobj, recv, args, st, x.Pos())
 	}
+	if con == nil && isPureLibrary(fobj) && fobj.Pkg() != nil && strings.HasPrefix(fobj.Pkg().Path(), "github.com/openconfig/ygot") {
+		// debug-print helpers: no-ops for verification purposes
+		recv, args := c.evalArgs(x, fobj, recvExpr, st)
+		all := args
+		if recvExpr != nil {
+			all = append([]string{recv}, args...)
+		}
+		c.abstractions["pure-uf:"+key] = true
+		return c.pureUF("lib!"+sanitize(key), fobj, all, st, false)
+	}
 	if fd != nil && fd.Body != nil && (con != nil && con.Mode == "inline" || c.autoInline(p, fd)) {
 		recv, args := c.evalArgs(x, fobj, recvExpr, st)
 		return c.inlineCall(p, fd, fobj, recv, recvExpr != nil, args, st, x.Pos())
@@ -1016,6 +1026,13 @@ func (c *FnCtx) checkPost(st *State, vals []string, pos token.Pos) {
 			bind[n] = vals[i]
 		}
 	}
+	// reachability of this return under the contract's assumptions (vacuity guard)
+	{
+		save := c.curProp
+		c.curProp = "*"
+		c.oblige(st, "reach", "reach@"+c.retSite, "false", pos, "return site reachable: "+c.retSite)
+		c.curProp = save
+	}
 	saveOld := c.oldState
 	c.oldState = c.entry
 	for i, cl := range c.con.Ensures {
@@ -1174,6 +1191,9 @@ func (c *FnCtx) scanCallWrites(x *ast.CallExpr, li *loopInfo) {
 		return
 	}
 	con := c.prog.Contracts[key]
+	if con == nil && isPureLibrary(fobj) {
+		return
+	}
 	if fd != nil && fd.Body != nil && (con != nil && con.Mode == "inline" || c.autoInline(p, fd)) {
 		if c.inlineDepth > 6 {
 			li.heapAll = true
